@@ -429,17 +429,20 @@ def three_way(ctx):
                 argv = None
             if argv is None:
                 continue
-            jobs.append((fam, p, [str(a) for a in argv], fam.get('request_spec', fam['request'])(p)))
-    replies = ctx.model.batch([j[3] for j in jobs])
-    for (fam, p, argv, req), rep in zip(jobs, replies):
+            jobs.append((fam, p, [str(a) for a in argv]))
+    from lib import family_replies
+    replies = family_replies(ctx.model, [(j[0], j[1]) for j in jobs])
+    for (fam, p, argv), reps in zip(jobs, replies):
         a = outcome(lambda: cnfgen_cli(['cnfgen'] + argv, mode='formula'))
         ctx.count('cli-vs-model', (fam['name'], tuple(argv)), nontrivial=True, sample=dict(family=fam['name'], argv=argv))
         ctx.tally('three-way family', fam['name'])
-        if a[0] != 'ok' or is_error(rep) or not isinstance(rep, list) or len(rep) < 2:
+        good = [r for r in reps if not is_error(r) and isinstance(r, list) and len(r) >= 2]
+        if a[0] != 'ok' or not good:
             continue
         F = a[1]
         canon = lambda cl: sorted(set(tuple(sorted(c)) for c in cl))
-        if F.number_of_variables() != rep[0] or canon(list(F)) != canon(rep[1]):
+        rep = good[0]
+        if not any(F.number_of_variables() == r[0] and canon(list(F)) == canon(r[1]) for r in good):
             ctx.violation('correspondence', 'command line formula differs from the family model %s' % fam['name'],
                           dict(input=dict(argv=argv, params=p), cli_numvar=F.number_of_variables(), model_numvar=rep[0]), False, site='cli-vs-model', cls=fam['name'])
     shutil.rmtree(tmp, ignore_errors=True)
